@@ -135,7 +135,8 @@ PROPS = {
         "extract_keys": ["TOP_VALUE", "ENCODED_VALUE_SIZE", "length MAX"],
         "spec_is_property": True,
         "streams": {
-            "quick": [("default", "len", 4000), ("default", "len-sweep", 0), ("naive", "len", 2000)],
+            "quick": [("default", "len", 4000), ("default", "len-sweep", 0), ("naive", "len", 2000),
+                      ("unsafe", "len", 2000), ("unsafe", "len-sweep", 0)],
             "thorough": [("default", "len", 100000), ("default", "len-sweep", 0), ("naive", "len", 50000),
                          ("naive", "len-sweep", 0), ("unsafe", "len", 50000), ("unsafe", "len-sweep", 0),
                          ("default-dev", "len", 50000), ("unsafe-dev", "len", 20000)],
@@ -206,10 +207,11 @@ PROPS = {
         "spec_is_property": True,
         "streams": {
             "quick": [("default", "frombin", 1500), ("default", "acc", 1200), ("embedded", "frombin", 600),
-                      ("embedded", "acc", 600), ("default", "fmt", 300)],
+                      ("embedded", "acc", 600), ("default", "fmt", 300), ("default", "store", 2)],
             "thorough": [("default", "frombin", 30000), ("default", "acc", 30000), ("embedded", "frombin", 10000),
                          ("embedded", "acc", 10000), ("naive", "acc", 10000), ("unsafe", "frombin", 10000),
-                         ("unsafe", "acc", 10000), ("default-dev", "acc", 5000), ("default", "fmt", 10000)],
+                         ("unsafe", "acc", 10000), ("default-dev", "acc", 5000), ("default", "fmt", 10000),
+                         ("default", "store", 40), ("embedded", "store", 20)],
         },
         "assumptions": ["bitfield-struct accessors (q1ratio/q2ratio) are third-party generated code; swept over all "
                         "256 Q-ratio bytes by the acc stream"],
@@ -354,11 +356,13 @@ PROPS = {
         "spec_is_property": True,
         "streams": {
             "quick": [("strict", "parse", 4000), ("strict", "parse-sweep", 32), ("strict", "frombin", 1500),
-                      ("strict", "gen", 2500), ("strict", "hist", 800), ("default", "gen", 800)],
+                      ("strict", "gen", 2500), ("strict", "hist", 800), ("default", "gen", 800),
+                      # builds that compute the 48-bucket checksum step without the double table
+                      ("naive", "gen", 1500), ("embedded", "gen", 800)],
             "thorough": [("strict", "parse", 80000), ("strict", "parse-sweep", 2), ("strict", "frombin", 40000),
                          ("strict", "gen", 40000), ("strict", "hist", 20000), ("unsafe-strict", "parse", 30000),
                          ("unsafe-strict", "frombin", 20000), ("unsafe-strict", "gen", 10000),
-                         ("default", "gen", 20000), ("embedded", "gen", 10000)],
+                         ("default", "gen", 20000), ("embedded", "gen", 10000), ("naive", "gen", 10000)],
         },
         "rule": "frombin sweeps the checksum byte and the length code over all 256 values in the strict build; "
                 "every hash produced by the gen/state streams is checked for strict validity and strict round trip "
@@ -465,6 +469,7 @@ PROPS = {
         ],
     },
     "C07": {
+        "crash_concrete": True,   # a configuration whose probe process dies disagrees with the others
         "modules": [T + "C07"],
         "theorems": [(T + "C07.generate_any_cfg_eq_spec", T + "C07"),
                      (T + "C07.generate_cfg_irrelevant", T + "C07"),
